@@ -146,6 +146,8 @@ func pkgShort(dir string) string {
 }
 
 var clauseRe = regexp.MustCompile(`^(requires|ensures|records|invariant|assert@call|assert@store|assert@return|derive@call|assume)(\[[^\]]*\])?\s+(.*)$`)
+// a derived conclusion: one ghost predicate applied to names or access paths (x, *x, x.f.g, x[0])
+var deriveRe = regexp.MustCompile(`^[A-Z][A-Za-z0-9_]*\((\s*\*?[A-Za-z_][A-Za-z0-9_]*(\.[A-Za-z_][A-Za-z0-9_]*|\[[0-9]+\])*\s*,?)*\)$`)
 var recordsRe = regexp.MustCompile(`^[A-Z][A-Za-z0-9_]*\((\s*\*?[A-Za-z_][A-Za-z0-9_]*\s*,?)*\)$`)
 var labelRe = regexp.MustCompile(`^([A-Za-z0-9_.\-]+):\s+(.*)$`)
 
@@ -382,7 +384,11 @@ func (cs *ContractSet) parseFile(path, pkgDir string, extern bool) {
 					continue
 				}
 				cl.Callee = f[0]
-				fmt.Sscanf(f[1], "#%d", &cl.Ordinal)
+				if f[1] == "#last" {
+					cl.Ordinal = -1 // the last occurrence in source order
+				} else {
+					fmt.Sscanf(f[1], "#%d", &cl.Ordinal)
+				}
 				text = strings.TrimSpace(f[2])
 				if strings.HasPrefix(text, "(") {
 					d := 0
@@ -436,8 +442,8 @@ func (cs *ContractSet) parseFile(path, pkgDir string, extern bool) {
 				}
 				cl.Derive = strings.TrimSpace(cl.Text[i+2:])
 				cl.Text = strings.TrimSpace(cl.Text[:i])
-				if !recordsRe.MatchString(cl.Derive) {
-					cs.errs = append(cs.errs, where+": derived conclusion must be one ghost predicate applied to names: "+cl.Derive)
+				if !deriveRe.MatchString(cl.Derive) {
+					cs.errs = append(cs.errs, where+": derived conclusion must be one ghost predicate applied to names or access paths: "+cl.Derive)
 					continue
 				}
 			}
